@@ -186,24 +186,20 @@ func (s *swamp) PatchFields(key string, ops []msgpackpatch.Op, condition *msgpac
 	// patch in the window between the early beaconKey.Get and CreateTreasure would let this
 	// caller silently overwrite the patched body with the seed.
 	treasureObj := s.beaconKey.Get(key)
-	createdNew := false
 	if treasureObj == nil {
 		treasureObj = s.CreateTreasure(key)
-		createdNew = true
 	}
 
 	guardID := treasureObj.StartTreasureGuard(true)
 	defer treasureObj.ReleaseTreasureGuard(guardID)
 
-	saved := false
-	defer func() {
-		// If we obtained a fresh in-flight treasure but never persisted it (condition failed,
-		// patch errored, content type was wrong), drop it from the creatingTreasures tracker
-		// so it does not accumulate. Save() already cleans up on the success path.
-		if createdNew && !saved {
-			s.creatingTreasures.Delete(key)
-		}
-	}()
+	// An in-flight treasure that is not persisted here (condition failed, patch errored,
+	// content type was wrong) stays registered in creatingTreasures: CreateTreasure hands the
+	// same in-flight treasure to every concurrent creator, so other callers may already be
+	// queued on this very object. Dropping the entry let the next creator build a second
+	// treasure for the key while the queued callers still saved the first one (lost
+	// updates). The entry is removed by the Save that publishes the treasure; IncrementXxx
+	// leaves its in-flight treasure registered in the same way when its condition fails.
 
 	var (
 		inputBody []byte
@@ -263,7 +259,6 @@ func (s *swamp) PatchFields(key string, ops []msgpackpatch.Op, condition *msgpac
 	treasureObj.SetContentByteArray(guardID, wrapMsgpackBody(out))
 	applyPatchMeta(treasureObj, guardID, opts.Meta, isCreate)
 	treasureObj.Save(guardID)
-	saved = true
 
 	if isCreate {
 		return PatchFieldsResult{Status: PatchStatusCreated, NewMsgpack: out}, nil
